@@ -583,15 +583,20 @@ fn deep_case(ctx: &Ctx, ch: &mut Ch) -> Outcome {
     let (s, e, site, depth) = sites[ch.pick(sites.len())];
     let (snippet, head): (String, String) = match site {
         Site::IntOperand => {
-            let f = ["true", "false", "(1 < 2)", "(if true then false else true)", "(if true\n      then false\n      else true)"][ch.pick(5)];
+            let f = ["true", "false", "(1 < 2)", "(if true then false else true)", "(if true\n      then false\n      else true)", "(zq9 = true; zq9)", "(((zp9 : bool) => zp9) false)"][ch.pick(7)];
             (f.to_owned(), "This has type `bool`, but it should have type `int`:".to_owned())
         }
-        Site::Condition => (["5", "(1 + 2)"][ch.pick(2)].to_owned(), "This has type `int`, but it should have type `bool`:".to_owned()),
+        // The offending subexpression in every syntactic form of its type (forms that do not
+        // parse at the position are skipped below).
+        Site::Condition => (
+            ["5", "(1 + 2)", "-7", "(-3)", "-(1 + 2)", "(if true then 1 else 2)", "(zq9 = 1; zq9)", "((zp9 : int) => zp9) 1"][ch.pick(8)].to_owned(),
+            "This has type `int`, but it should have type `bool`:".to_owned(),
+        ),
         Site::Applicand => {
-            let f = ["5", "(1 + 2)", "true"][ch.pick(3)];
+            let f = ["5", "(1 + 2)", "true", "(-3)", "(if true then 1 else 2)", "(zq9 = 1; zq9)"][ch.pick(6)];
             (f.to_owned(), format!("This has type `{}` when a function was expected:", if f == "true" { "bool" } else { "int" }))
         }
-        Site::TypePosition => (["5", "(2 * 3)"][ch.pick(2)].to_owned(), "This is not a type:".to_owned()),
+        Site::TypePosition => (["5", "(2 * 3)", "-1", "(-2)", "(if true then 1 else 2)", "(zq9 = 1; zq9)"][ch.pick(6)].to_owned(), "This is not a type:".to_owned()),
     };
     // Keep the replacement a separate token.
     let needs_space_before = text[..s].chars().next_back().is_some_and(|c| c.is_alphanumeric() || c == '_');
